@@ -27,7 +27,7 @@ def spellable(knames):
     cls = st.sampled_from([["cls", n] for n in knames] + [["cls", "int"], ["cls", "str"], ["cls", "float"]])
     union = st.lists(cls, min_size=2, max_size=3, unique_by=repr).map(lambda m: ["union", m])
     optional = cls.map(lambda c: ["union", [c, ["cls", "NoneType"]]])
-    lit = st.lists(st.sampled_from([0, 1, 2, 3, "a", "z", -1]), min_size=2, max_size=4, unique_by=repr).map(
+    lit = st.lists(st.sampled_from([0, 1, 2, 3, "a", "z", -1, True, False]), min_size=2, max_size=4, unique_by=repr).map(
         lambda v: ["lit", v])
     lst = cls.map(lambda c: ["listof", c])
     return st.one_of(union, union, optional, st.just(["obj"]), lit, lst, cls)
